@@ -64,6 +64,10 @@ def plan(tier, seed):
     # (c) on the serendipity families, whose mixed containers pair the quadratic displacements with cell-wise constant duals
     for fk in ("ps", "axi", "3d"):
         cases.append(dict(key=f"condensed-quadratic/{fk}", kind="ni-quadratic", fk=fk, seed=seed, cost=12 if fk == "3d" else 5))
+    # the explicit formulation built AFTER an unrelated dual field was created with other options (disconnect=False) on another
+    # region of the same class, on a mesh whose neighbouring cells start at a common corner: defaults are defaults in every order
+    for fk in ("ps", "3d"):
+        cases.append(dict(key=f"condensed-after-other-dual/{fk}", kind="ni-dual-history", fk=fk, seed=seed, cost=5))
     # a condensed body CREATED on a field that already carries a (volume-changing) deformation: its state is that of the field
     for fk in ("3d", "ps", "axi"):
         cases.append(dict(key=f"condensed-created-deformed/{fk}", kind="ni-created", fk=fk, seed=seed, cost=3))
@@ -385,6 +389,48 @@ def run(case):
             c.cmp(f"substep{s_}/converged/J", "converged volume ratios", la[-1][2], lb[-1][2], 1e-7)
             c.cmp(f"substep{s_}/converged/p", "converged pressures", 1 + la[-1][1] / max(case["bulk"], 1), 1 + lb[-1][1] / max(case["bulk"], 1), 1e-7)
         return c.result(dict(case=case["key"], iterations=cnt_c, cells=int(mesh.ncells)))
+    if kind == "ni-dual-history":
+        fk = case["fk"]
+        if fk == "3d":
+            mesh = fem.Cube(n=(4, 3, 2))
+            cells = mesh.cells.copy()
+            cells[1::2] = cells[1::2][:, [1, 2, 3, 0, 5, 6, 7, 4]]  # (every second cell starts at its second corner: same cell)
+            mesh = fem.Mesh(mesh.points, cells, mesh.cell_type)
+            R_, F_ = fem.RegionHexahedron, fem.Field
+            other = fem.RegionHexahedron(fem.Cube(n=2))
+        else:
+            mesh = fem.Rectangle(n=(5, 4))
+            cells = mesh.cells.copy()
+            cells[1::2] = np.roll(cells[1::2], -1, axis=1)
+            mesh = fem.Mesh(mesh.points, cells, mesh.cell_type)
+            R_, F_ = fem.RegionQuad, fem.FieldPlaneStrain
+            other = fem.RegionQuad(fem.Rectangle(n=2))
+        region = R_(mesh)
+        kw = dict(planestrain=True) if fk == "ps" else {}
+        bulk = 50.0
+        results = {}
+        for rnd in ("first", "after-other-dual"):
+            if rnd == "after-other-dual":
+                fem.FieldDual(other, disconnect=False)
+                fem.FieldsMixed(other, n=3, disconnect=False, **kw)
+                c.trans += 2
+            fm = fem.FieldsMixed(region, n=3, **kw)
+            for i_ in (1, 2):
+                dm = fm[i_].region.mesh
+                if fm[i_].values.shape[0] != mesh.ncells or not np.array_equal(np.asarray(dm.cells).ravel(), np.arange(mesh.ncells)):
+                    c.bad(f"{rnd}/dual-mesh/field{i_}", "dual mesh of a default mixed container: one own point per cell", dict(points=int(fm[i_].values.shape[0]), first_cells=np.asarray(dm.cells).ravel()[:4].tolist()), dict(points=int(mesh.ncells), first_cells=[0, 1, 2, 3]), 0)
+            fc = fem.FieldContainer([F_(region, dim=mesh.dim)])
+            bc = fem.SolidBodyNearlyIncompressible(fem.NeoHooke(mu=1.0), fc, bulk=bulk)
+            bm = fem.SolidBody(fem.NearlyIncompressible(fem.NeoHooke(mu=1.0), bulk=bulk), fm)
+            out = {}
+            for tag, field, body in (("c", fc, bc), ("m", fm, bm)):
+                bounds, lc = fem.dof.uniaxial(field, clamped=True, move=-0.15, axis=0, sym=False)
+                res = fem.newtonrhapson(items=[body], x0=field, dof0=lc["dof0"], dof1=lc["dof1"], ext0=lc["ext0"], tol=1e-11, verbose=False)
+                c.trans += res.iterations
+                out[tag] = res.x[0].values.copy()
+            c.cmp(f"{rnd}/converged/u", "converged displacements: condensed body vs explicit (u, p, J) formulation with default dual fields", out["c"], out["m"], 1e-8)
+        c.outcomes.add("dual-defaults-after-other-options")
+        return c.result(dict(case=case["key"], cells=int(mesh.ncells)))
     if kind == "ni-created":
         fk = case["fk"]
         if fk == "3d":
